@@ -172,7 +172,7 @@ type memorySizer func(minPages uint32, maxPages *uint32) (min uint32, capacity u
 func newMemorySizer(memoryLimitPages uint32, memoryCapacityFromMax bool) memorySizer {
 	return func(minPages uint32, maxPages *uint32) (min, capacity, max uint32) {
 		if maxPages != nil {
-			if memoryCapacityFromMax {
+			if memoryCapacityFromMax && *maxPages <= memoryLimitPages {
 				return minPages, *maxPages, *maxPages
 			}
 			// This is an invalid value: let it propagate, we will fail later.
@@ -181,6 +181,9 @@ func newMemorySizer(memoryLimitPages uint32, memoryCapacityFromMax bool) memoryS
 			}
 			// This is a valid value, but it goes over the run-time limit: return the limit.
 			if *maxPages > memoryLimitPages {
+				if memoryCapacityFromMax {
+					return minPages, memoryLimitPages, memoryLimitPages
+				}
 				return minPages, minPages, memoryLimitPages
 			}
 			return minPages, minPages, *maxPages
